@@ -197,14 +197,25 @@ class OPA(BaseModelSingleSet):
         target = target.rename({"mode": "feature1"})
         # -> target (feature1 x dummy)
 
-        # Solve the symmetric eigenvalue problem
-        eigensolver = Decomposer(
-            n_modes=self._params["n_modes"], flip_signs=False, solver="full"
+        # Solve the symmetric eigenvalue problem. The target is symmetric but not
+        # necessarily positive definite, so its singular values would be the absolute
+        # eigenvalues; use a symmetric eigensolver and keep the largest eigenvalues.
+        n_modes = self._params["n_modes"]
+        lbda, U = xr.apply_ufunc(
+            np.linalg.eigh,
+            target,
+            input_core_dims=[("feature1", "dummy")],
+            output_core_dims=[("mode",), ("feature1", "mode")],
+            vectorize=False,
+            dask="allowed",
         )
-        eigensolver.fit(target, dims=("feature1", "dummy"))
-        U = eigensolver.U_
+        # eigh returns ascending eigenvalues -> descending order, leading n_modes
+        descending = slice(None, None, -1)
+        mode_coords = {"mode": np.arange(1, n_modes + 1)}
+        U = U.isel(mode=descending).isel(mode=slice(n_modes)).assign_coords(mode_coords)
         # -> U (feature1 x mode)
-        lbda = eigensolver.s_
+        lbda = lbda.isel(mode=descending).isel(mode=slice(n_modes))
+        lbda = lbda.assign_coords(mode_coords).rename("s")
         # -> lbda (mode)
         # U, lbda, ct = xr.apply_ufunc(
         #     np.linalg.svd,
